@@ -163,11 +163,39 @@ fn main() {
     std::process::exit(code);
 }
 
+/// delta-debugging of a diverging case: drop everything after the first diverging operation, then drop earlier
+/// operations one at a time as long as some divergence remains
+pub fn shrink(args: &Args, d: &Divergence) -> Option<(Case, Divergence)> {
+    let lines: Vec<String> = d.lines.clone();
+    let mut case = case_from_lines(&lines);
+    case.name = d.case.clone(); case.lang = d.lang.clone();
+    if d.op_index + 1 < case.ops.len() { case.ops.truncate(d.op_index + 1); }
+    let still_fails = |c: &Case| -> Option<Divergence> {
+        match correspondence(args, std::slice::from_ref(c)) { Ok(mut r) => { let mut v: Vec<Divergence> = r.panics.drain(..).collect(); v.extend(r.divergences.drain(..)); v.into_iter().next() } Err(_) => None }
+    };
+    let mut best = still_fails(&case)?;
+    let mut i = case.ops.len();
+    let mut budget = 70;
+    while i > 0 && budget > 0 {
+        i -= 1; budget -= 1;
+        if case.ops.len() <= 1 { break; }
+        let mut cand = case.clone();
+        cand.ops.remove(i);
+        if let Some(dv) = still_fails(&cand) { case = cand; best = dv; }
+    }
+    Some((case, best))
+}
+
 pub fn emit_divergences(args: &Args, rep: &CorrReport, replays: &mut Vec<String>) {
     for (k, d) in rep.panics.iter().chain(rep.divergences.iter()).enumerate() {
         if k >= 5 { break; }
         let path = format!("{}/replays/{}_{}_{}.replay", args.workdir, args.prop, if k < rep.panics.len() { "panic" } else { "corr" }, k);
-        write_replay(&path, &args.prop, if k < rep.panics.len() { "implementation panic" } else { "model/implementation divergence" }, d);
+        let kind = if k < rep.panics.len() { "implementation panic" } else { "model/implementation divergence" };
+        // shrink the first two (each attempt is one driver invocation)
+        match if k < 2 { shrink(args, d) } else { None } {
+            Some((c, dv)) => { let small = Divergence { lines: c.lines(), case: c.name.clone(), stream: d.stream.clone(), lang: c.lang.clone(), op_index: dv.op_index, op_line: dv.op_line.clone(), detail: format!("{} [shrunk from {} to {} operations]", dv.detail, d.lines.iter().filter(|l| !l.starts_with("stem ") && !l.starts_with("case ") && !l.starts_with("lang ")).count(), c.ops.len()) }; write_replay(&path, &args.prop, kind, &small); }
+            None => write_replay(&path, &args.prop, kind, d),
+        }
         replays.push(path);
     }
 }
